@@ -26,7 +26,7 @@ PROPS = {
     },
     "C12": {
         "timeouts_not_mine": True,
-        "lean_modules": ["Props.C20b", "Props.Gen20", "Props.GenT20"],
+        "lean_modules": ["Props.C20b", "Props.Gen20", "Props.GenT20", "Props.Gen12", "Props.GenT12"],
         "groups": [{"name": "render", "quick": 3000, "thorough": 80000}, {"name": "mediaL", "quick": 600, "thorough": 20000, "workers": 12},
                    # numbers typed in the real UI (also while a media hook is running): what the hook is started with
                    {"name": "C07", "quick": 160, "thorough": 4000, "workers": 16},
@@ -278,7 +278,7 @@ PROPS = {
         "assumptions": ["Config.Safe is the only configuration hypothesis used by the panic-freedom theorems of C06/C07/C20"],
     },
     "C20": {
-        "lean_modules": ["Props.Facts19", "Props.C20b", "Props.Facts20", "Props.Gen20", "Props.GenT20", "Props.Gen03m", "Props.GenT03m"],
+        "lean_modules": ["Props.Facts19", "Props.C20b", "Props.Facts20", "Props.Gen20", "Props.GenT20", "Props.Gen03m", "Props.GenT03m", "Props.Gen12", "Props.GenT12"],
         "groups": [{"name": "C20", "quick": 600, "thorough": 20000, "workers": 12},
                    {"name": "media", "quick": 600, "thorough": 20000, "workers": 12},
                    # configuration files through the real parser: the hook that reaches openExternally is the configured one
@@ -326,7 +326,7 @@ MANIFEST_TEXT = {
         "technique": "Lean 4 proof (Clean invariant, mutual induction over the renderer) + differential correspondence with a safety predicate on every output",
     },
     "C12": {
-        "text": "Lean theorems: in every renderer each numbered element prints the index of its own target (ghost labels = 1..N in order, nesting included), the link list is independent of the width, and SelectLink(k) returns body link k, then attachment k-|links|, and nothing for any other integer; the numbers supplement prints select the right attachment. pub/link.go (the Link struct, NewLink, Alt, rating, SelectBestLink, SelectFirstLink, Select/SelectWithDefaultMediaType) is translated to Lean on every run (extract/go2lean5.go -> Generated/GoLink.lean) and proved equal to the link model (Props/Gen20.lean), so the selection theorems hold of the translated code (Props/GenT20.lean). Otherwise tied to the code by differential correspondence on the renderers with generator-assigned labels and targets; label->target and 1..N predicates are evaluated on every implementation output.",
+        "text": "Lean theorems: in every renderer each numbered element prints the index of its own target (ghost labels = 1..N in order, nesting included), the link list is independent of the width, and SelectLink(k) returns body link k, then attachment k-|links|, and nothing for any other integer; the numbers supplement prints select the right attachment. pub/link.go (the Link struct, NewLink, Alt, rating, SelectBestLink, SelectFirstLink, Select/SelectWithDefaultMediaType) is translated to Lean on every run (extract/go2lean5.go -> Generated/GoLink.lean) and proved equal to the link model (Props/Gen20.lean), so the selection theorems hold of the translated code (Props/GenT20.lean); the methods that give and take the numbers (Post.supplement, Post/Actor/Activity/Failure.SelectLink, Post.Media, Actor.ProfilePic/Banner) are translated too (extract/go2lean11.go -> Generated/GoSelect.lean), proved equal to Select.post / the link and presentation models without panics (Props/Gen12.lean), and the number printed for attachment i is proved to select attachment i on the translated code, every attachment numbered (Props/GenT12.lean). Otherwise tied to the code by differential correspondence on the renderers with generator-assigned labels and targets; label->target and 1..N predicates are evaluated on every implementation output.",
         "design_ref": "DESIGN.md §5 C12",
         "note": "Trusted: Lean kernel; correspondence check (testing); parsers; adjacency of numbers is not part of the statement.",
         "technique": "Lean 4 proof (ghost-label invariant by mutual induction over the renderer) + differential correspondence with a label oracle",
@@ -422,7 +422,7 @@ MANIFEST_TEXT = {
         "technique": "Lean 4 proof (character-level case analysis) + differential correspondence, exhaustive colour space in thorough",
     },
     "C20": {
-        "text": "Lean theorems for all hooks, links and media types: argv has the hook's length, the program name is never substituted, an argument is replaced iff it is exactly a placeholder, stdin carries the link iff no %url argument, the link is one verbatim argument; which (link, media type) pair is handed on is proved on pub/link.go as translated to Lean on every run (extract/go2lean5.go -> Generated/GoLink.lean, Props/Gen20.lean, Props/GenT20.lean): the link's own type, else the default of its kind, else the caller's default. Tied to ui.openExternally by running the real function with a dump program as the hook and comparing argv/stdin with the model; the same predicates are checked on the recorded argv.",
+        "text": "Lean theorems for all hooks, links and media types: argv has the hook's length, the program name is never substituted, an argument is replaced iff it is exactly a placeholder, stdin carries the link iff no %url argument, the link is one verbatim argument; which (link, media type) pair is handed on is proved on pub/link.go as translated to Lean on every run (extract/go2lean5.go -> Generated/GoLink.lean, Props/Gen20.lean, Props/GenT20.lean): the link's own type, else the default of its kind, else the caller's default. Which link a number, o, p or b selects is proved on Post/Actor/Activity.SelectLink, Post.Media, Actor.ProfilePic/Banner as translated (extract/go2lean11.go -> Generated/GoSelect.lean, Props/Gen12.lean, Props/GenT12.lean). Tied to ui.openExternally by running the real function with a dump program as the hook and comparing argv/stdin with the model; the same predicates are checked on the recorded argv.",
         "design_ref": "DESIGN.md §5 C20",
         "note": "Trusted: Lean kernel; correspondence check (testing); os/exec argv passing.",
         "technique": "Lean 4 proof (list induction) + differential correspondence through a recording hook program",
